@@ -5,7 +5,7 @@ open Lean
 /-! Driver glue for the transport-selection model (C15 §6).
 
 ```
-{"m":"detect","url":str,"post":P,"gets":[[url,P]…],"norm":[[raw,wire|null]…]}     P = "exc" | {"status":n,"ct":str}   (a GET of an unlisted URL: 404, no content type)
+{"m":"detect","url":str,"client_ok":b,"err_text":str,"post":P,"gets":[[url,P]…],"norm":[[raw,wire|null]…]}     P = "exc" | {"status":n,"ct":str}   (a GET of an unlisted URL: 404, no content type)
 -> {"streamable":b,"sse_url":b,"probe_urls":[str…],"detect":str,"gets":n,
     "fallback":{"k":"http"|"sse"|"fail","url":str|null},"probed":b,"http_valid":b,"sse_valid":b}
 ```
@@ -42,7 +42,17 @@ def handle (j : Json) : Except String Json := do
     | some (_, some n) => lookup n
     | some (_, none) => .exc
     | none => lookup u
-  let d := detect post get url
+  let clientOk := (j.getObjValAs? Bool "client_ok").toOption.getD true
+  let d0 := detectOr clientOk post get url
+  let d : String × Nat := (d0.1, d0.2.1)
+  let errText := ((j.getObjValAs? String "err_text").toOption.getD "").toList
+  let tryUrl := match j.getObjValAs? String "sse_try_url" with
+    | .ok u => u.toList
+    | .error _ => url
+  let ts := match trySse tryUrl errText with
+    | .client u => Json.mkObj [("k", "client"), ("url", Json.str (String.ofList u))]
+    | .guidance => Json.mkObj [("k", "guidance"), ("url", Json.null)]
+    | .reraise => Json.mkObj [("k", "reraise"), ("url", Json.null)]
   let f := fallback post get url
   let fj := match f.1 with
     | .http u => Json.mkObj [("k", "http"), ("url", Json.str (String.ofList u))]
@@ -53,6 +63,6 @@ def handle (j : Json) : Except String Json := do
     ("probe_urls", Json.arr ((probeUrls url).map (fun u => Json.str (String.ofList u))).toArray),
     ("detect", Json.str d.1), ("gets", toJson d.2), ("fallback", fj), ("probed", Json.bool f.2),
     ("http_valid", Json.bool (validUrl httpUrlPrefixes url)), ("sse_valid", Json.bool (validUrl sseUrlPrefixes (sseFallbackUrl url))),
-    ("translatable", Json.bool translatable)]
+    ("posted", Json.bool d0.2.2), ("try_sse", ts), ("translatable", Json.bool translatable)]
 
 end Verif.Drv.Detect
